@@ -710,6 +710,9 @@ class Emitter:
                     al.append(ib)
                 return '%s(@DST@, %s);' % (cname, ', '.join(al))
             return '%s(@DST@%s);' % (cname, ''.join(', ' + self.arg(a, None) for a in args))
+        if ti['kind'] == 'engine' and not args:
+            self.fire('G14')
+            return 'vp_rng_init(@DST@);'
         if ti['kind'] == 'opaque':
             # library object (std::ofstream ...): an opaque stub object constructed from its arguments (G14)
             self.fire('G14')
@@ -1117,6 +1120,8 @@ class Emitter:
                 return '(*vp_os_put_sz(&(%s), %s))' % (lhs, self.emit(args[1]))
             if ri['kind'] == 'scalar' and ri['ctype'] == 'char':
                 return '(*vp_os_sep(&(%s)))' % lhs
+            if ri['kind'] == 'engine':
+                return '(*vp_os_put_rng(&(%s), &(%s)))' % (lhs, self.emit(r))
             raise ExtractError('operator<< with operand of type ' + rq)
         if self.opts.get('streams') and op == 'operator>>' and bti['ctype'] in ('vp_istream',):
             self.fire('G13')
@@ -1126,6 +1131,8 @@ class Emitter:
                 return '(*vp_is_get_T(&(%s), &(%s)))' % (lhs, self.emit(args[1]))
             if ri['kind'] == 'scalar' and ri['ctype'] == 'size_t':
                 return '(*vp_is_get_sz(&(%s), &(%s)))' % (lhs, self.emit(args[1]))
+            if ri['kind'] == 'engine':
+                return '(*vp_is_get_rng(&(%s), &(%s)))' % (lhs, self.emit(args[1]))
             raise ExtractError('operator>> into ' + qtype(args[1]))
         if op == 'operator<<' and bti['ctype'] in ('vp_ostream', 'vp_ofstream'):
             # out << a << b ...: every operand is still evaluated, in order; the formatting is libstdc++'s (G13)
